@@ -437,6 +437,26 @@ func runTranscode(c *Case, tr *Trace) {
 				err = f.VerifFinalize()
 			}
 		}
+	case "decbytes", "decreader":
+		// the source is PULLED: one Next per value until the decoder reports the end of the stream
+		var d decoderI
+		if c.Entry == "decbytes" {
+			d = src.newBytesDecoder(exact(doc), enc)
+		} else {
+			buf := c.Buf
+			if buf <= 0 {
+				buf = 64
+			}
+			d = src.newDecoder(&planReader{data: exact(doc), plan: c.Plan, eofWith: c.EOFWith}, buf, enc)
+		}
+		for i := 0; i < len(doc)+3; i++ {
+			if e := d.Next(); e != nil {
+				if e != io.EOF {
+					err = e
+				}
+				break
+			}
+		}
 	default:
 		panic("harness: unknown transcode entry " + c.Entry)
 	}
